@@ -74,6 +74,211 @@ Proof.
   - apply (Hmono f2 f1); [reflexivity|exact H2|exact Hle].
 Qed.
 
+(* ------------------------------------------------------------------ the instrumented driver
+   Copies of krun / remaining / main_iter / main_loop / tail_loop / streamed (Model/Join.v) that
+   thread counters and are otherwise identical; `*_erase` lemmas below show that dropping the
+   counters gives back the model functions. *)
+Fixpoint krun_cnt (fuel:nat) (k:kind) (emit:bool) (p:kparams) (s:fsm) (n:nat) : res (fsm * nat) :=
+  match fuel with
+  | O => OutOfFuel
+  | S f =>
+    do o <- kstep k emit p s;
+    match o with None => Ok (s, n) | Some s' => krun_cnt f k emit p s' (S n) end
+  end.
+
+Fixpoint remaining_cnt (fuel:nat) (both:bool) (i_max i_off inv:Z) (s:fsm) (n:nat) : res (fsm * nat) :=
+  match fuel with
+  | O => OutOfFuel
+  | S f =>
+    if (fi s <? i_max) && (fr s <? len (if both then lres s else rres s)) then
+      do l' <- (if both then set 50 (lres s) (fr s) (i_off + fi s) else Ok (lres s));
+      do r' <- set 51 (rres s) (fr s) inv;
+      remaining_cnt f both i_max i_off inv (upd_ijr s (fi s + 1) (fj s) (fr s + 1) l' r') (S n)
+    else Ok (s, n)
+  end.
+
+(* one main-loop iteration; also returns the number of kernel loop bodies it executed *)
+Definition main_iter_cnt (v:variant) (L R:list Z) (inv cs:Z) (d:drv) : res (option (drv * nat)) :=
+  if (fi (df d) + i_off_ d <? len L) && (fj (df d) + j_off_ d <? len R) then
+    let p := mkkp (left_ d) (i_max_ d) (right_ d) (j_max_ d) inv (i_off_ d) (j_off_ d) in
+    do sn <- krun_cnt (kfuel d cs) (v_kind v) (v_left v) p (df d) 0;
+    let s := fst sn in
+    do d1 <- (if (i_off_ d + fi s <? len L) && (snd (lch d) - fst (lch d) <=? fi s) then
+                do c <- fetch_chunk (v_ltrim v) (snd (lch d)) cs L;
+                let ch := fst c in
+                Ok (mkdrv (set_i s 0) ch (snd c) (snd ch - fst ch) (fst ch)
+                          (rch d) (right_ d) (j_max_ d) (j_off_ d) (outl d) (outr d))
+              else Ok (set_f d s));
+    do d2 <- (if (j_off_ d1 + fj (df d1) <? len R) && (snd (rch d1) - fst (rch d1) <=? fj (df d1)) then
+                do c <- fetch_chunk (v_rtrim v) (snd (rch d1)) cs R;
+                let ch := fst c in
+                Ok (mkdrv (set_j (df d1) 0) (lch d1) (left_ d1) (i_max_ d1) (i_off_ d1)
+                          ch (snd c) (snd ch - fst ch) (fst ch) (outl d1) (outr d1))
+              else Ok d1);
+    Ok (Some (flush (v_writes_l v) d2, snd sn))
+  else Ok None.
+
+(* it = kernel calls so far (= completed iterations), ks = kernel loop bodies so far *)
+Fixpoint main_loop_cnt (fuel:nat) (v:variant) (L R:list Z) (inv cs:Z) (d:drv) (it ks:nat)
+  : res (drv * (nat * nat)) :=
+  match fuel with
+  | O => OutOfFuel
+  | S fu =>
+    do o <- main_iter_cnt v L R inv cs d;
+    match o with
+    | None => Ok (d, (it, ks))
+    | Some (d', n) => main_loop_cnt fu v L R inv cs d' (S it) (ks + n)
+    end
+  end.
+
+(* it = tail iterations so far, rs = loop bodies of the `remaining` kernel so far *)
+Fixpoint tail_loop_cnt (fuel:nat) (v:variant) (L:list Z) (inv cs:Z) (d:drv) (it rs:nat)
+  : res (drv * (nat * nat)) :=
+  match fuel with
+  | O => OutOfFuel
+  | S fu =>
+    if fi (df d) + i_off_ d <? len L then
+      do sn <- remaining_cnt (S (S (Z.to_nat cs))) (v_writes_l v) (i_max_ d) (i_off_ d) inv (df d) rs;
+      let s := fst sn in
+      let ch := next_chunk (snd (lch d)) (len L) cs in
+      let d' := mkdrv (set_i s 0) ch (left_ d) (snd ch - fst ch) (fst ch)
+                      (rch d) (right_ d) (j_max_ d) (j_off_ d) (outl d) (outr d) in
+      tail_loop_cnt fu v L inv cs (flush (v_writes_l v) d') (S it) (snd sn)
+    else Ok (d, (it, rs))
+  end.
+
+Record counts := mkcounts {
+  c_calls : nat;     (* kernel calls = completed main-loop iterations *)
+  c_ksteps : nat;    (* loop bodies executed by the *_partial kernel, summed over all calls *)
+  c_tail : nat;      (* completed tail-loop iterations (to_left variants) *)
+  c_rsteps : nat }.  (* loop bodies executed by the *_remaining kernel, summed over all calls *)
+
+Definition streamed_cnt (v:variant) (L R:list Z) (inv cs:Z) : res ((list Z * list Z) * counts) :=
+  let buf := repeat 0 (Z.to_nat cs) in
+  do lc <- fetch_chunk (v_ltrim v) 0 cs L;
+  do rc <- fetch_chunk (v_rtrim v) 0 cs R;
+  let s0 := mkfsm 0 0 0 0 0 (-1) (-1) false buf buf in
+  let d0 := mkdrv s0 (fst lc) (snd lc) (snd (fst lc) - fst (fst lc)) (fst (fst lc))
+                  (fst rc) (snd rc) (snd (fst rc) - fst (fst rc)) (fst (fst rc)) [] [] in
+  do x1 <- main_loop_cnt (driver_fuel L R) v L R inv cs d0 0 0;
+  do x2 <- (if v_left v then tail_loop_cnt (S (S (length L))) v L inv cs (fst x1) 0 0 else Ok (fst x1, (O, O)));
+  Ok ((outl (fst x2), outr (fst x2)),
+      mkcounts (fst (snd x1)) (snd (snd x1)) (fst (snd x2)) (snd (snd x2))).
+
+(* ---- erasure: dropping the counters gives the model functions *)
+Lemma krun_cnt_erase : forall fuel k emit p s n,
+  krun fuel k emit p s = do x <- krun_cnt fuel k emit p s n; Ok (fst x).
+Proof.
+  induction fuel as [|fuel IH]; intros k emit p s n; cbn [krun krun_cnt]; [reflexivity|].
+  destruct (kstep k emit p s) as [o| | |]; cbn [bind]; try reflexivity.
+  destruct o; [apply IH|reflexivity].
+Qed.
+
+Lemma remaining_cnt_erase : forall fuel both i_max i_off inv s n,
+  remaining fuel both i_max i_off inv s = do x <- remaining_cnt fuel both i_max i_off inv s n; Ok (fst x).
+Proof.
+  induction fuel as [|fuel IH]; intros both i_max i_off inv s n; cbn [remaining remaining_cnt]; [reflexivity|].
+  destruct ((fi s <? i_max) && (fr s <? len (if both then lres s else rres s))); [|reflexivity].
+  destruct (if both then set 50 (lres s) (fr s) (i_off + fi s) else Ok (lres s)) as [l'| | |]; cbn [bind]; try reflexivity.
+  destruct (set 51 (rres s) (fr s) inv) as [r'| | |]; cbn [bind]; try reflexivity.
+  apply IH.
+Qed.
+
+Lemma main_iter_cnt_erase v L R inv cs d :
+  main_iter v L R inv cs d = do o <- main_iter_cnt v L R inv cs d; Ok (option_map fst o).
+Proof.
+  unfold main_iter, main_iter_cnt.
+  destruct ((fi (df d) + i_off_ d <? len L) && (fj (df d) + j_off_ d <? len R)); [|reflexivity].
+  cbv zeta. rewrite (krun_cnt_erase _ _ _ _ _ 0%nat).
+  destruct (krun_cnt (kfuel d cs) (v_kind v) (v_left v)
+              (mkkp (left_ d) (i_max_ d) (right_ d) (j_max_ d) inv (i_off_ d) (j_off_ d)) (df d) 0) as [[s n]| | |];
+    cbn [bind fst snd]; try reflexivity.
+  match goal with |- bind ?X _ = bind (bind ?X _) _ => destruct X as [d1| | |] end; cbn [bind]; try reflexivity.
+  match goal with |- bind ?X _ = bind (bind ?X _) _ => destruct X as [d2| | |] end; cbn [bind]; reflexivity.
+Qed.
+
+Lemma main_loop_cnt_erase v L R inv cs : forall fuel d it ks,
+  main_loop fuel v L R inv cs d = do x <- main_loop_cnt fuel v L R inv cs d it ks; Ok (fst x).
+Proof.
+  induction fuel as [|fuel IH]; intros d it ks; cbn [main_loop main_loop_cnt]; [reflexivity|].
+  rewrite main_iter_cnt_erase.
+  destruct (main_iter_cnt v L R inv cs d) as [o| | |]; cbn [bind]; try reflexivity.
+  destruct o as [[d' n]|]; cbn [option_map fst]; [apply IH|reflexivity].
+Qed.
+
+Lemma tail_loop_cnt_erase v L inv cs : forall fuel d it rs,
+  tail_loop fuel v L inv cs d = do x <- tail_loop_cnt fuel v L inv cs d it rs; Ok (fst x).
+Proof.
+  induction fuel as [|fuel IH]; intros d it rs; cbn [tail_loop tail_loop_cnt]; [reflexivity|].
+  destruct (fi (df d) + i_off_ d <? len L); [|reflexivity].
+  rewrite (remaining_cnt_erase _ _ _ _ _ _ rs).
+  destruct (remaining_cnt (S (S (Z.to_nat cs))) (v_writes_l v) (i_max_ d) (i_off_ d) inv (df d) rs) as [[s n]| | |];
+    cbn [bind fst snd]; try reflexivity.
+  apply IH.
+Qed.
+
+Theorem streamed_cnt_erase v L R inv cs :
+  streamed v L R inv cs = do x <- streamed_cnt v L R inv cs; Ok (fst x).
+Proof.
+  unfold streamed, streamed_cnt.
+  destruct (fetch_chunk (v_ltrim v) 0 cs L) as [lc| | |]; cbn [bind]; try reflexivity.
+  destruct (fetch_chunk (v_rtrim v) 0 cs R) as [rc| | |]; cbn [bind]; try reflexivity.
+  cbv zeta. rewrite (main_loop_cnt_erase _ _ _ _ _ _ _ 0%nat 0%nat).
+  match goal with |- bind (bind ?X _) _ = _ => destruct X as [[d1 c1]| | |] end; cbn [bind fst snd]; try reflexivity.
+  destruct (v_left v).
+  - rewrite (tail_loop_cnt_erase _ _ _ _ _ _ 0%nat 0%nat).
+    match goal with |- bind (bind ?X _) _ = _ => destruct X as [[d2 c2]| | |] end; cbn [bind fst snd]; reflexivity.
+  - reflexivity.
+Qed.
+
+(* ---- the `remaining` kernel: every loop body advances i by one *)
+Lemma remaining_cnt_steps both i_max i_off inv : forall fuel s n s' n',
+  remaining_cnt fuel both i_max i_off inv s n = Ok (s', n') -> fi s <= i_max ->
+  (n <= n')%nat /\ Z.of_nat n' - Z.of_nat n = fi s' - fi s /\ fi s' <= i_max.
+Proof.
+  induction fuel as [|fuel IH]; intros s n s' n' E Hi; cbn [remaining_cnt] in E; [discriminate|].
+  destruct ((fi s <? i_max) && (fr s <? len (if both then lres s else rres s))) eqn:Ec.
+  - destruct (if both then set 50 (lres s) (fr s) (i_off + fi s) else Ok (lres s)) as [l'| | |];
+      cbn [bind] in E; try discriminate.
+    destruct (set 51 (rres s) (fr s) inv) as [r'| | |]; cbn [bind] in E; try discriminate.
+    apply IH in E; cbn [upd_ijr fi] in *; lia.
+  - injection E as <- <-. lia.
+Qed.
+
+(* ---- the tail loop: a purely geometric invariant suffices for counting *)
+Definition TGeom (L:list Z) (d:drv) : Prop :=
+  0 <= fst (lch d) <= snd (lch d) /\ snd (lch d) <= len L /\
+  i_off_ d = fst (lch d) /\ i_max_ d = snd (lch d) - fst (lch d) /\
+  0 <= fi (df d) <= i_max_ d /\ (fi (df d) < i_max_ d \/ GI d = len L).
+
+Lemma flush_geom w d :
+  lch (flush w d) = lch d /\ i_off_ (flush w d) = i_off_ d /\ i_max_ (flush w d) = i_max_ d /\
+  fi (df (flush w d)) = fi (df d).
+Proof. unfold flush. destruct (0 <? fr (df d)); cbn; auto. Qed.
+
+Lemma tail_loop_cnt_bound v L inv cs : 1 <= cs -> forall fuel d it rs d' it' rs',
+  TGeom L d -> tail_loop_cnt fuel v L inv cs d it rs = Ok (d', (it', rs')) ->
+  (it <= it')%nat /\ (rs <= rs')%nat /\ GI d <= GI d' <= len L /\
+  Z.of_nat it' - Z.of_nat it <= GI d' - GI d /\ Z.of_nat rs' - Z.of_nat rs <= GI d' - GI d.
+Proof.
+  intros Hcs. induction fuel as [|fuel IH]; intros d it rs d' it' rs' HG E; cbn [tail_loop_cnt] in E; [discriminate|].
+  destruct HG as (Hc1 & Hc2 & Hio & Him & Hi & Hhead).
+  replace (fi (df d) + i_off_ d) with (GI d) in E by (unfold GI; lia).
+  destruct (GI d <? len L) eqn:Ec.
+  - destruct (remaining_cnt (S (S (Z.to_nat cs))) (v_writes_l v) (i_max_ d) (i_off_ d) inv (df d) rs)
+      as [[s n]| | |] eqn:Er; cbn [bind fst snd] in E; try discriminate.
+    apply remaining_cnt_steps in Er; [|lia]. destruct Er as (Hn & Hsteps & Hs').
+    rewrite (next_chunk_eq (snd (lch d)) (len L) cs) in E by lia. cbn [fst snd] in E.
+    match type of E with tail_loop_cnt _ _ _ _ _ (flush ?w ?dd) _ _ = _ =>
+      pose proof (flush_geom w dd) as (F1 & F2 & F3 & F4); set (d1 := flush w dd) in * end.
+    cbn [lch i_off_ i_max_ df set_i fi] in F1, F2, F3, F4.
+    assert (HGI1 : GI d1 = snd (lch d)) by (unfold GI; rewrite F2, F4; lia).
+    apply IH in E.
+    + destruct E as (E1 & E2 & E3 & E4 & E5). unfold GI in *. lia.
+    + unfold TGeom. rewrite F1, F2, F3, F4, HGI1. cbn [fst snd]. splits; try lia.
+  - injection E as <- <- <-. unfold GI in *. lia.
+Qed.
+
 Section Steps.
 Variables (k:kind) (emit:bool) (L R:list Z) (inv cs:Z).
 Variable K : KindOK k emit L R inv cs.
@@ -199,6 +404,190 @@ Proof.
       { unfold len in *. lia. }
       rewrite E2. discriminate. }
   rewrite (Htail emit (fun H => H)). reflexivity.
+Qed.
+
+(* ---------------------------------------------------------------- (2) counting kernel steps *)
+Definition flag (s:fsm) : Z := if finner s then 0 else 1.
+
+Lemma krun_cnt_ok : forall fuel p la lb ra rb s ol orr O n0,
+  Win k emit L R inv cs p la lb ra rb -> Buf cs s -> Pos p s -> LocK s ->
+  AbsK (la + fi s) (ra + fj s) (sub_of s) O -> OutRel k emit ol orr s O ->
+  Z.of_nat fuel > kmeas cs p s ->
+  exists s' O' n, krun_cnt fuel k emit p s n0 = Ok (s', (n0 + n)%nat) /\
+    Buf cs s' /\ Pos p s' /\
+    AbsK (la + fi s') (ra + fj s') (sub_of s') O' /\ OutRel k emit ol orr s' O' /\
+    (fi s' >= ki_max p \/ fj s' >= kj_max p \/ fr s' >= cs) /\
+    fi s <= fi s' /\ fj s <= fj s' /\ fr s <= fr s' /\
+    (fi s < ki_max p -> fj s < kj_max p -> fr s < cs ->
+     fi s + fj s + fr s < fi s' + fj s' + fr s') /\
+    Z.of_nat n <= kmeas cs p s - kmeas cs p s'.
+Proof.
+  induction fuel as [|fuel IH]; intros p la lb ra rb s ol orr O n0 HW HB HP HL HA HO Hf.
+  - pose proof (kmeas_nonneg cs p s HB HP). lia.
+  - cbn [krun_cnt].
+    destruct (kstep_ok k emit L R inv cs K p la lb ra rb s ol orr O HW HB HP HL HA HO)
+      as [[E Hstop]|(s1 & O1 & E & HB1 & HP1 & HL1 & HA1 & HO1 & Hi1 & Hj1 & Hr1 & Hm1 & Hprog)].
+    + rewrite E. cbn [bind]. exists s, O, 0%nat. rewrite Nat.add_0_r.
+      splits; try assumption; try reflexivity; try lia.
+    + rewrite E. cbn [bind].
+      destruct (IH p la lb ra rb s1 ol orr O1 (S n0) HW HB1 HP1 HL1 HA1 HO1 ltac:(lia))
+        as (s' & O' & n & E' & HB' & HP' & HA' & HO' & Hstop' & Hi' & Hj' & Hr' & Hprog' & Hn).
+      exists s', O', (S n). split; [rewrite E'; do 2 f_equal; lia|]. splits; try assumption; try lia.
+Qed.
+
+Lemma main_iter_cnt_unfold d :
+  main_iter_cnt v L R inv cs d =
+  if (fi (df d) + i_off_ d <? len L) && (fj (df d) + j_off_ d <? len R) then
+    do sn <- krun_cnt (kfuel d cs) k emit (params_of inv d) (df d) 0;
+    do d1 <- refill_l k emit L cs (set_f d (fst sn));
+    do d2 <- refill_r k emit R cs d1;
+    Ok (Some (flush (v_writes_l v) d2, snd sn))
+  else Ok None.
+Proof. reflexivity. Qed.
+
+(* one iteration: progress of at least one unit of (I + J + |O|), and at most 2*progress + 1 kernel steps *)
+Lemma main_iter_cnt_ok d O : DInvK d O ->
+  (main_iter_cnt v L R inv cs d = Raise E_ValueError /\ LongRun k emit L R cs) \/
+  (main_iter_cnt v L R inv cs d = Ok None /\ (GI d = len L \/ GJ d = len R)) \/
+  (exists d' O' n, main_iter_cnt v L R inv cs d = Ok (Some (d', n)) /\ DInvK d' O' /\
+     GI d <= GI d' /\ GJ d <= GJ d' /\ len O <= len O' /\
+     1 <= (GI d' - GI d) + (GJ d' - GJ d) + (len O' - len O) /\
+     Z.of_nat n <= 2 * ((GI d' - GI d) + (GJ d' - GJ d) + (len O' - len O)) + 1).
+Proof.
+  intros (HM & Hr0 & HhL & HhR).
+  pose proof (MidInv_bounds _ _ _ _ _ _ K d O HM) as (HI & HJ).
+  pose proof (MidInv_lenO _ _ _ _ _ _ K d O HM) as HlenO.
+  rewrite main_iter_cnt_unfold.
+  replace (fi (df d) + i_off_ d) with (GI d) by (unfold GI; lia).
+  replace (fj (df d) + j_off_ d) with (GJ d) by (unfold GJ; lia).
+  destruct ((GI d <? len L) && (GJ d <? len R)) eqn:Econd;
+    [|right; left; split; [reflexivity|lia]].
+  destruct HM as (HW & HB & HP & HA & HO).
+  assert (HLoc : LocK (df d)).
+  { apply Loc_init; [exact Hr0| |]; destruct HP as (? & ? & _); lia. }
+  assert (Hhi : fi (df d) < i_max_ d) by (unfold HeadL in HhL; lia).
+  assert (Hhj : fj (df d) < j_max_ d) by (unfold HeadR in HhR; lia).
+  assert (Hfuel : Z.of_nat (kfuel d cs) > kmeas cs (params_of inv d) (df d)).
+  { clear - HW HB HP Hcs. unfold kfuel, kmeas.
+    destruct HW as (_ & Hio & Him & HcL & Hjo & Hjm & HcR).
+    destruct HcL as (HL1 & HL2 & HL3 & HLd & _). destruct HcR as (HR1 & HR2 & HR3 & HRd & _).
+    destruct HP as (Hi & Hj & _). destruct HB as (_ & _ & Hrr).
+    unfold params_of in *. cbn [ki_off ki_max kj_off kj_max kleft kright] in *.
+    assert (Hlenl : len (left_ d) = Z.min (fst (lch d) + cs) (len L) - fst (lch d))
+      by (rewrite HLd; apply len_slice; lia).
+    assert (Hlenr : len (right_ d) = Z.min (fst (rch d) + cs) (len R) - fst (rch d))
+      by (rewrite HRd; apply len_slice; lia).
+    unfold len in *. destruct (finner (df d)); lia. }
+  assert (HA0 : AbsK (fst (lch d) + fi (df d)) (fst (rch d) + fj (df d)) (sub_of (df d)) O).
+  { destruct HW as (_ & Hio & _ & _ & Hjo & _). unfold params_of in Hio, Hjo. cbn [ki_off kj_off] in Hio, Hjo.
+    unfold GI, GJ in HA. rewrite <- Hio, <- Hjo. exact HA. }
+  destruct (krun_cnt_ok (kfuel d cs) (params_of inv d) _ _ _ _ (df d) (outl d) (outr d) O 0%nat HW HB HP HLoc HA0 HO Hfuel)
+    as (s' & O' & n & E & HB' & HP' & HA' & HO' & Hstop & Hi' & Hj' & Hr' & Hprog & Hn).
+  rewrite E. cbn [bind fst snd Nat.add].
+  assert (Hprog' : fi (df d) + fj (df d) + fr (df d) < fi s' + fj s' + fr s').
+  { apply Hprog; unfold params_of; cbn [ki_max kj_max]; lia. }
+  assert (Hn' : Z.of_nat n <= 2 * ((fi s' - fi (df d)) + (fj s' - fj (df d)) + (fr s' - fr (df d))) + 1).
+  { clear - Hn. unfold kmeas in Hn. destruct (finner (df d)), (finner s'); lia. }
+  assert (HM1 : MidInvK (set_f d s') O').
+  { unfold MidInv, set_f, GI, GJ, params_of.
+    cbn [df lch left_ i_max_ i_off_ rch right_ j_max_ j_off_ outl outr].
+    splits; try assumption.
+    destruct HW as (_ & Hio & _ & _ & Hjo & _). unfold params_of in Hio, Hjo. cbn [ki_off kj_off] in Hio, Hjo.
+    rewrite Hio, Hjo. exact HA'. }
+  assert (HGI1 : GI (set_f d s') = i_off_ d + fi s') by reflexivity.
+  assert (HGJ1 : GJ (set_f d s') = j_off_ d + fj s') by reflexivity.
+  assert (Hfr1 : fr (df (set_f d s')) = fr s') by reflexivity.
+  assert (Hor1 : outr (set_f d s') = outr d) by reflexivity.
+  pose proof (MidInv_lenO _ _ _ _ _ _ K _ _ HM1) as HlenO1. rewrite Hfr1, Hor1 in HlenO1.
+  destruct (refill_l_ok k emit L R inv cs K Hcs _ _ HM1)
+    as [(Hr & Hlong)|(d1 & E1 & HMd1 & HI1 & HJ1 & Hfrd1 & Hord1 & HhL1 & _)];
+    [left; split; [rewrite Hr; reflexivity|exact Hlong]|].
+  rewrite E1. cbn [bind].
+  destruct (refill_r_ok k emit L R inv cs K Hcs _ _ HMd1)
+    as [(Hr & Hlong)|(d2 & E2 & HMd2 & HI2 & HJ2 & Hfrd2 & Hord2 & HhR2 & HhL2)];
+    [left; split; [rewrite Hr; reflexivity|exact Hlong]|].
+  rewrite E2. cbn [bind].
+  right. right.
+  destruct (flush_ok k emit L R inv cs K Hcs _ _ HMd2 (HhL2 HhL1) HhR2) as (HD & HIf & HJf).
+  eexists _, O', n. split; [reflexivity|]. split; [exact HD|].
+  rewrite HIf, HJf, HI2, HJ2, HI1, HJ1, HGI1, HGJ1. unfold GI, GJ. splits; lia.
+Qed.
+
+(* the whole main loop, whatever the fuel: whenever it returns, the counters are bounded by the progress made *)
+Lemma main_loop_cnt_bound : forall fuel d O it ks d' it' ks',
+  DInvK d O -> main_loop_cnt fuel v L R inv cs d it ks = Ok (d', (it', ks')) ->
+  exists O', DInvK d' O' /\ (GI d' = len L \/ GJ d' = len R) /\
+    (it <= it')%nat /\ (ks <= ks')%nat /\ GI d <= GI d' /\ GJ d <= GJ d' /\ len O <= len O' /\
+    Z.of_nat it' - Z.of_nat it <= (GI d' - GI d) + (GJ d' - GJ d) + (len O' - len O) /\
+    Z.of_nat ks' - Z.of_nat ks <=
+      2 * ((GI d' - GI d) + (GJ d' - GJ d) + (len O' - len O)) + (Z.of_nat it' - Z.of_nat it).
+Proof.
+  induction fuel as [|fuel IH]; intros d O it ks d' it' ks' HD E; cbn [main_loop_cnt] in E; [discriminate|].
+  destruct (main_iter_cnt_ok d O HD) as [(Hr & _)|[(E0 & Hend)|(d1 & O1 & n & E1 & HD1 & HI1 & HJ1 & HO1 & Hp1 & Hn1)]].
+  - rewrite Hr in E. discriminate.
+  - rewrite E0 in E. cbn [bind] in E. injection E as <- <- <-. exists O. splits; try assumption; lia.
+  - rewrite E1 in E. cbn [bind] in E.
+    destruct (IH _ O1 _ _ _ _ _ HD1 E) as (O' & HD' & Hend & H1 & H2 & H3 & H4 & H5 & H6 & H7).
+    exists O'. splits; try assumption; lia.
+Qed.
+
+Lemma len_unmatched a b : 0 <= a <= b -> len (unmatched inv a b) = b - a.
+Proof.
+  intros H. unfold unmatched. unfold len at 1. rewrite map_length. fold (len (seqZ a (b - a))).
+  apply seqZ_length. lia.
+Qed.
+
+(* both loops, both kernels *)
+Theorem streamed_cnt_bound out c :
+  streamed_cnt v L R inv cs = Ok (out, c) ->
+  Z.of_nat (c_calls c) + Z.of_nat (c_tail c) <= len L + len R + len SPEC /\
+  Z.of_nat (c_ksteps c) + Z.of_nat (c_rsteps c) <= 2 * (len L + len R + len SPEC) + Z.of_nat (c_calls c).
+Proof.
+  unfold streamed_cnt.
+  pose proof (len_nonneg L) as HLn. pose proof (len_nonneg R) as HRn.
+  destruct (fetch_chunk_spec (v_ltrim v) 0 cs L Hcs ltac:(lia)) as [Hr|(lb & ldata & El & HckL)];
+    [rewrite Hr; discriminate|].
+  rewrite El. cbn [bind].
+  destruct (fetch_chunk_spec (v_rtrim v) 0 cs R Hcs ltac:(lia)) as [Hr|(rb & rdata & Er & HckR)];
+    [rewrite Hr; discriminate|].
+  rewrite Er. cbn [bind fst snd].
+  pose proof (DInv_init lb ldata rb rdata HckL HckR) as HD0. cbn zeta in HD0.
+  set (buf := repeat 0 (Z.to_nat cs)) in *.
+  set (d0 := mkdrv (mkfsm 0 0 0 0 0 (-1) (-1) false buf buf) (0, lb) ldata (lb - 0) 0 (0, rb) rdata (rb - 0) 0 [] []) in *.
+  destruct (main_loop_cnt (driver_fuel L R) v L R inv cs d0 0 0) as [[d1 [it ks]]| | |] eqn:E1;
+    cbn [bind fst snd]; try discriminate.
+  destruct (main_loop_cnt_bound _ d0 [] _ _ _ _ _ HD0 E1) as (O1 & HD1 & Hend & _ & _ & HI & HJ & _ & Hit & Hks).
+  assert (HGI0 : GI d0 = 0) by reflexivity. assert (HGJ0 : GJ d0 = 0) by reflexivity.
+  change (len (@nil (Z * Z))) with 0 in Hit, Hks. rewrite HGI0, HGJ0 in *. cbn [Z.of_nat] in Hit, Hks.
+  pose proof HD1 as (HM1 & Hr1 & HhL1 & HhR1).
+  pose proof (MidInv_bounds _ _ _ _ _ _ K d1 O1 HM1) as (HI1 & HJ1).
+  pose proof (MidInv_prefix d1 O1 HM1) as HO1.
+  cbn [v_left].
+  assert (Htail : forall b:bool, (b = true -> emit = true) -> forall x2,
+            (if b then tail_loop_cnt (S (S (length L))) v L inv cs d1 0 0 else Ok (d1, (0%nat, 0%nat))) = Ok x2 ->
+            Z.of_nat (fst (snd x2)) <= len SPEC - len O1 /\ Z.of_nat (snd (snd x2)) <= len SPEC - len O1).
+  { intros [|] Hb [d2 [tit rs]] E2; [|injection E2 as <- <- <-; cbn [fst snd Z.of_nat]; lia].
+    specialize (Hb eq_refl). cbn [fst snd].
+    (* len SPEC = len O1 + (len L - GI d1) *)
+    pose proof HM1 as (HW1 & HB1 & HP1 & HA1 & _).
+    assert (Hinn1 : s_inner (sub_of (df d1)) = false).
+    { cbn [sub_of s_inner]. destruct (finner (df d1)) eqn:Ein; [|reflexivity].
+      destruct HP1 as (Hpi & Hpj & Hpinn). specialize (Hpinn Ein).
+      destruct HW1 as (_ & Hio & Him & HcL & Hjo & Hjm & HcR).
+      destruct HcL as (? & ? & ? & _). destruct HcR as (? & ? & ? & _).
+      unfold params_of in *. cbn [ki_off ki_max kj_off kj_max] in *. unfold GI, GJ in *. lia. }
+    pose proof (Abs_final k emit L R inv cs K _ _ _ _ HA1 Hinn1 HI1 HJ1 Hend) as Hfinal.
+    rewrite Hb in Hfinal at 1.
+    assert (Hlen : len SPEC = len O1 + (len L - GI d1)).
+    { rewrite <- Hfinal, len_app, len_unmatched by lia. reflexivity. }
+    assert (HG : TGeom L d1).
+    { pose proof (TInv_after_main d1 O1 HD1) as (_ & _ & Hc1 & Hc2 & _ & Hio & Him & Hi & _ & _ & Hhead & _).
+      unfold TGeom. splits; try assumption; lia. }
+    destruct (tail_loop_cnt_bound v L inv cs Hcs _ _ _ _ _ _ _ HG E2) as (_ & _ & HG2 & Ht & Hrs).
+    cbn [Z.of_nat] in Ht, Hrs. lia. }
+  match goal with |- (do x2 <- ?X; _) = _ -> _ => destruct X as [x2| | |] eqn:E2 end; cbn [bind]; try discriminate.
+  destruct (Htail emit (fun H => H) x2 E2) as (Ht & Hrs).
+  intros Eq. injection Eq as _ <-. cbn [c_calls c_ksteps c_tail c_rsteps]. lia.
 Qed.
 
 End Steps.
